@@ -15,10 +15,10 @@ var tailNames = []string{"empty", "random-bytes", "another-valid-image", "the-sa
 
 func c07(e *Env) {
 	r := e.R
-	r.Rule("every type × canonical values (as C01) × 4 trailing byte strings {empty, 1..64 random bytes, another valid image of the type, the image itself}; plus streams: 2..30 frames of mixed body types per frame type, per-module sequences of body messages in a known type order, once concatenated from individual encodings and once produced through one shared send buffer. distinct_nontrivial = distinct (value hash, tail kind) with a non-empty image + distinct streams")
+	r.Rule("every type × canonical values (as C01) × 4 trailing byte strings {empty, 1..64 random bytes, another valid image of the type, the image itself}; plus streams: 2..30 frames of mixed body types per frame type, per-module sequences of body messages in a known type order, once concatenated from individual encodings, once produced through one shared send buffer, and once decoded into one reused receiver object per type (a read loop). distinct_nontrivial = distinct (value hash, tail kind) with a non-empty image + distinct streams")
 	r.Explain("Oracle: after Decode(image‖tail) the buffer's unread bytes are exactly tail, byte for byte, and the decoded message ≡ the original (computed fields = their correct values). Streams: n successive decodes return the n originals in order and leave the buffer empty.")
 	types := e.Types()
-	n := e.N(40, 1200)
+	n := e.N(200, 8000)
 	acc := newFeatAcc()
 	e.Par(len(types), func(i int) {
 		t := types[i]
@@ -90,7 +90,7 @@ func c07(e *Env) {
 	})
 	// ---- streams
 	if e.Only == "" {
-		nstream := e.N(400, 12000)
+		nstream := e.N(2000, 60000)
 		var frames []*schema.Type
 		byMod := map[string][]*schema.Type{}
 		for _, t := range e.S.Order {
@@ -143,12 +143,20 @@ func c07(e *Env) {
 			for k, t := range ts {
 				names[k] = t.QName
 			}
-			for variant, stream := range [][]byte{concat, append([]byte(nil), shared.Bytes()...)} {
+			for variant, stream := range [][]byte{concat, append([]byte(nil), shared.Bytes()...), concat} {
 				buf := bytes.NewBuffer(append([]byte(nil), stream...))
 				r.Evals(1)
 				bad := false
+				reused := map[string]any{} // variant 2: a read loop that keeps one receiver object per type
 				for k, t := range ts {
 					d := e.C.New[t.QName]()
+					if variant == 2 {
+						if old, ok := reused[t.QName]; ok {
+							d = old
+						} else {
+							reused[t.QName] = d
+						}
+					}
 					err, p := LibDecode(d, buf)
 					if err != nil || p != nil {
 						r.Violate("C07/stream-decode-failed", "C07/stream-decode-failed", map[string]any{"stream": si, "position": k, "types": names, "variant": variant, "error": fmt.Sprint(err, p)})
@@ -166,7 +174,7 @@ func c07(e *Env) {
 					bad = true
 				}
 				if !bad {
-					acc.merge(map[string]int{[]string{"streams-concatenated", "streams-through-shared-buffer"}[variant]: 1, "stream-messages": len(ts)})
+					acc.merge(map[string]int{[]string{"streams-concatenated", "streams-through-shared-buffer", "streams-into-one-reused-receiver-per-type"}[variant]: 1, "stream-messages": len(ts)})
 				}
 			}
 			r.Distinct(val.Hash(fmt.Sprint(si, names)))
